@@ -301,6 +301,29 @@ func NilTestEdge(fieldSuffix string) func(*ssa.BasicBlock, int) bool {
 		}
 		g := normGuard(Guard{iff.Cond, succ == 0, from})
 		x, op, y, cok := CmpGuard(g)
-		return cok && op == token.EQL && IsNilConst(y) && strings.HasSuffix(DescDeep(x), fieldSuffix)
+		return cok && op == token.EQL && IsNilConst(y) && strings.HasSuffix(ValueDescThroughParam(x), fieldSuffix)
 	}
+}
+
+// CurrentProg is the program under analysis (set by the driver before a property's rules run); it
+// lets descriptor helpers resolve a helper's parameter to what its call sites pass.
+var CurrentProg *Prog
+
+// ValueDescThroughParam is DescDeep(v), except that a parameter of an unexported, directly called
+// function is described by the argument its (single, or all agreeing) call sites pass for it:
+// `p.abortCache(old.hooks.onInvalidations)` makes the helper's `hook` parameter
+// "….hooks.onInvalidations".
+func ValueDescThroughParam(v ssa.Value) string {
+	if _, isp := v.(*ssa.Parameter); isp && CurrentProg != nil {
+		if vals, _, ok := paramArgs(CurrentProg, v); ok && len(vals) > 0 {
+			d := DescDeep(vals[0])
+			for _, x := range vals[1:] {
+				if DescDeep(x) != d {
+					return DescDeep(v)
+				}
+			}
+			return d
+		}
+	}
+	return DescDeep(v)
 }
